@@ -1,6 +1,8 @@
 /- Driver handlers for the C04 correspondence streams. -/
 import Csvq.Model.Proto
 import Csvq.Model.Group
+import Csvq.Model.FormatFloat
+import Csvq.Model.Aggregate
 namespace Csvq.Drive
 open Csvq Csvq.Proto
 
@@ -19,12 +21,19 @@ def parseKTok (s : String) : Option KTok :=
     pure { p := p, ftext := f, trim := t }
   | _ => none
 
-/-- serialise one key with the float text supplied by the implementation's strconv -/
+/-- the float text the implementation's strconv supplied with the token is the model's own
+    (Model/FormatFloat.lean; `-` exactly when the value has no float reading) -/
+def ktokFloatOK (k : KTok) : Bool :=
+  match k.p.flt?, k.ftext with
+  | some f, some t => t == FF.fmtF f
+  | none, none => true
+  | _, _ => false
+
+/-- serialise one key; the float payload is the model's own strconv.FormatFloat (`FF.fmtF`, the instance
+    `C04.keytext_ok` is about) — the text supplied with the token is only compared with it (`ktokFloatOK`) -/
 def serTok (strict : Bool) (k : KTok) : Bytes :=
   let nk := if strict then normStrict k.p.raw (k.trim.getD []) else norm k.p
-  let zeroed : Bool := (k.p.flt? == some FVal.negz) && !strict
-  let ft : FVal → Bytes := fun f => if (f == FVal.fin 0) && zeroed then [48] else k.ftext.getD []
-  let kt : KeyText := { itext := decText, ftext := ft }
+  let kt : KeyText := { itext := decText, ftext := FF.fmtF }
   serKey kt nk
 
 def intercalateSep : List Bytes → Bytes
@@ -51,12 +60,62 @@ def showBuckets (g : List (Bytes × List Nat)) : String :=
 def keyedRows (strict : Bool) (ncols : Nat) (toks : List KTok) : List (Bytes × Nat) :=
   (chunk ncols toks).zipIdx.map fun (r, i) => (rowKey strict r, i)
 
+/-! ### aggregates (Model/Aggregate.lean) -/
+
+def showRes : Agg.Res → String
+  | .null => "N"
+  | .int i => "I" ++ toString i
+  | .flt f => "F" ++ showF f
+  | .str s => "S" ++ hex s
+  | .cell p => showVal p.raw
+
+def showCell : Option Profile → String
+  | none => "N"
+  | some p => showVal p.raw
+
+/-- the cells the function sees: all of them, or the first of every comparison key (DISTINCT) -/
+def aggCells (d : Nat) (ks : List KTok) : List Profile :=
+  match d with
+  | 0 => ks.map (·.p)
+  | 1 => Agg.distinguish (ks.map (·.p))
+  | _ => Agg.distinguishStrict (ks.map fun k => (k.p, k.trim.getD []))
+
+/-- the texts LISTAGG joins are the model's own: decText (= strconv.FormatInt) and FF.fmtF
+    (= strconv.FormatFloat(f, 'f', -1, 64) = value.Float64ToStr(f, false), Model/FormatFloat.lean) -/
+def aggKeyText (_ : List KTok) : KeyText := { itext := decText, ftext := FF.fmtF }
+
+/-- MEDIAN: sort.Float64s leaves the order of -0 and +0 open, so the sign of a zero result is not determined
+    when zeros of both signs are among the values; both sides then print +0 -/
+def showMedian (cells : List Profile) : String :=
+  match Agg.median cells with
+  | .flt f =>
+    let vs := Agg.medianList cells
+    if f.isZero && vs.contains .negz && vs.contains (.fin 0) then "F0" else "F" ++ showF f
+  | r => showRes r
+
+def aggOne (sep : Bytes) (cells : List Profile) (ks : List KTok) (fn : String) : Option String :=
+  (fun r => fn ++ "=" ++ r) <$> (match fn with
+  | "COUNT" => some (showRes (.int (Agg.count cells)))
+  | "MAX" => some (showCell (Agg.maxAgg cells))
+  | "MIN" => some (showCell (Agg.minAgg cells))
+  | "SUM" => some (showRes (Agg.sum cells))
+  | "AVG" => some (showRes (Agg.avg cells))
+  | "STDEV" => some (showRes (Agg.stdev cells))
+  | "STDEVP" => some (showRes (Agg.stdevp cells))
+  | "VAR" => some (showRes (Agg.var cells))
+  | "VARP" => some (showRes (Agg.varp cells))
+  | "MEDIAN" => some (showMedian cells)
+  | "LISTAGG" => some (showRes (Agg.listAgg (aggKeyText ks) sep cells))
+  | "POW2" =>   -- math.Pow(x, 2) of every float cell, and math.Sqrt of it
+    some (String.intercalate "," ((Agg.floatList cells).map fun f => showF (FVal.powTwo f) ++ "/" ++ showF (FVal.sqrt f)))
+  | _ => none)
+
 def c04 (cmd : String) (args : List String) : String :=
   let bad := "bad-op"
   match cmd, args with
   | "key", s :: toks =>
     match parseBool s, toks.mapM parseKTok with
-    | some strict, some ks => hex (rowKey strict ks)
+    | some strict, some ks => if ks.all ktokFloatOK then hex (rowKey strict ks) else "float-text-differs"
     | _, _ => bad
   | "group", s :: nc :: w :: toks =>
     -- w = number of worker chunks the model cuts the rows into (result must not depend on it)
@@ -84,6 +143,15 @@ def c04 (cmd : String) (args : List String) : String :=
         | _ => []
       showIdx (res.map Prod.snd)
     | _, _, _, _, _ => bad
+  | "agg", fns :: d :: sep :: toks =>
+    -- fns: comma-separated function names; d: 0 = all cells, 1 = DISTINCT, 2 = DISTINCT under --strict-equal;
+    -- sep: the separator of LISTAGG (`x<hex>`); toks: the cells of the group in record order
+    match d.toNat?, parseHexX sep, toks.mapM parseKTok with
+    | some d, some sep, some ks =>
+      match (fns.splitOn ",").mapM (aggOne sep (aggCells d ks) ks) with
+      | some rs => String.intercalate "|" rs
+      | none => bad
+    | _, _, _ => bad
   | _, _ => bad
 
 end Csvq.Drive
